@@ -44,7 +44,7 @@ def run(tier, seed):
         raise vlib.ToolError("Ingest.tla invariant %s violated" % res.violated)
     ac.replay(ctx, res.exports["INGEST"], cmd="ingest-replay", sig_prefix="replay:ingest", describe=describe)
     # byte-level corruption of every kind of external input
-    n = 40000 if big else 4000
+    n = 400000 if big else 4000
     out = os.path.join(ctx.work, "fuzz.ndjson")
     p = vlib.vh("ingest-fuzz", str(n), out, check=False)
     if p.returncode != 0:
